@@ -387,6 +387,9 @@ def structure_program(e):
     if pl:
         src += "d1.Setting = %s.%s.Maximum\n" % (pl, lt)
         src += "%s.%s = 1\n" % (pl, lt)
+        src += "d3.Setting = %s.Average.%s + %s.Sum.%s\n" % (pl, lt, pl, lt)
+        src += 'd4.Setting = %s["nm"].Minimum.%s + %s["nm"].%s.Maximum\n' % (pl, lt, pl, lt)
+        src += '%s["nm"].%s = 2\n' % (pl, lt)
     for s in e["named"]:
         src += "d2.Setting = xs.%s.Occupied\n" % s["name"]
     return src
@@ -394,7 +397,7 @@ def structure_program(e):
 
 def dyn_of(e, code):
     """What the compiled program says: hash operand of lb/sb, slot numbers of ls lines (compact mode: numbers)."""
-    out = {"ok": code is not None, "lb_hash": 0, "sb_hash": 0, "slots": []}
+    out = {"ok": code is not None, "lb_hash": 0, "sb_hash": 0, "slots": [], "all_hashes": []}
     if code is None:
         return out
     want = [s["idx"] for s in e["named"]]
@@ -409,6 +412,9 @@ def dyn_of(e, code):
         if t[0] == "sb" and len(t) == 4:
             v = ic10load.number_value(t[1])
             out["sb_hash"] = int(v) if v is not None and v.denominator == 1 and abs(v) < 2**31 else 0
+        if t[0] in ("lb", "lbn", "sb", "sbn") and len(t) >= 4:
+            v = ic10load.number_value(t[2] if t[0] in ("lb", "lbn") else t[1])
+            out["all_hashes"].append(int(v) if v is not None and v.denominator == 1 and abs(v) < 2**31 else 0)
         if t[0] == "ls" and len(t) == 5:
             v = ic10load.number_value(t[3])
             ls.append(int(v) if v is not None and v.denominator == 1 else -1)
@@ -554,7 +560,10 @@ def check_c09(tier, t0):
     progs += [(n, s) for n, s, _ in CL.names_family()] + CL.strings_family()
     progs += corpus.repo_programs(REPO)
     progs += wrapper_sweep()
-    progs += [("nf_undefined", corpus._loop("d1.Setting = nothere + 1\nd2.Setting = nothere")),
+    progs += [("nf_bool_operand", corpus._loop("ka = 1 < 2\nd0.Setting = ka\nkb = not 0\nd1.Setting = kb\nd2.Setting = (3 == 3) + d0.On")),
+              ("nf_inlined_float_arg", corpus.HEADER + "def fa(xa):\n    return xa * 2\ndef fb(xa, xb):\n    d2.Setting = xa + xb\nwhile True:\n    d0.Setting = fa(0.00001)\n    fb(1e-7, 123456789.5)\n    yield_()\n"),
+              ("nf_long_lines", corpus.HEADER + "".join("d%d.Setting = d%d.Temperature * 1.000001 + d%d.Pressure  # a long trailing comment to make this line long enough %d\n" % (i % 6, (i + 1) % 6, (i + 2) % 6, i) for i in range(4))),
+              ("nf_undefined", corpus._loop("d1.Setting = nothere + 1\nd2.Setting = nothere")),
               ("nf_bitnot", corpus._loop("d1.Setting = ~d0.Setting")), ("nf_unary", corpus._loop("va = d0.Setting\nd1.Setting = -va\nd1.On = not va"))]
     vecs = [cw.REF, dict(cw.opts(inline_functions=True), append_version=True),
             cw.opts(original_code_as_comment=True, generated_comments=True, append_version=True),
